@@ -15,46 +15,57 @@
 (***************************************************************************)
 EXTENDS PutOps
 
+CONSTANTS WithDays,   \* TRUE: trash-empty DAYS - an entry is purged only if its info, READ when the entry's turn comes, carries
+                      \* an old date: pre-existing entries are old, whatever a running trash-put has written (nothing yet, or
+                      \* today's date) is not.  FALSE: plain trash-empty, every listed entry is purged.
+          EMutant     \* "none" | "snapshot": the orphan pass decides "this payload has no info" from the listing of info/ taken
+                      \* at the start instead of looking now (seed C10-d)
+
 VARIABLES epc,      \* emptier: "list" | "entries" | "orphans" | "done"
           etodo,    \* slots still to purge in the current phase
-          ecur      \* <<slot, phase>> in hand: phase "pay" then "info"
-pevars == <<vars, epc, etodo, ecur>>
+          ecur,     \* <<slot, phase>> in hand: phase "pay" then "info"
+          einfos    \* the names listed in info/ when the emptier started
+pevars == <<vars, epc, etodo, ecur, einfos>>
 
 TD == Cands[1]
 
-EInit == Init /\ epc = "list" /\ etodo = {} /\ ecur = <<"-", "-">>
+EInit == Init /\ epc = "list" /\ etodo = {} /\ ecur = <<"-", "-">> /\ einfos = {}
 
 \* snapshot of the info directory
 EList == /\ epc = "list"
          /\ etodo' = {s \in AllSlots : info[TD][s] # NoneV}
+         /\ einfos' = {s \in AllSlots : info[TD][s] # NoneV}
          /\ epc' = "entries" /\ UNCHANGED <<vars, ecur>>
 EPick == /\ epc = "entries" /\ ecur[1] = "-"
          /\ IF etodo = {} THEN epc' = "olist" /\ UNCHANGED <<etodo, ecur>>
-            ELSE \E s \in etodo : ecur' = <<s, "pay">> /\ etodo' = etodo \ {s} /\ epc' = epc
-         /\ UNCHANGED vars
+            ELSE \E s \in etodo :
+                   /\ etodo' = etodo \ {s} /\ epc' = epc
+                   \* with DAYS the info is read now: only a pre-existing (old) one dooms its entry
+                   /\ ecur' = IF WithDays /\ info[TD][s] # PreV THEN <<"-", "-">> ELSE <<s, "pay">>
+         /\ UNCHANGED <<vars, einfos>>
 \* remove_file_if_exists(files/s) then remove info/s
 ERmPay == /\ epc = "entries" /\ ecur[2] = "pay"
           /\ pay' = [pay EXCEPT ![TD][ecur[1]] = NoneV]
           /\ ecur' = <<ecur[1], "info">>
-          /\ UNCHANGED <<parts, info, src, pc, cand, idx, slot, part, res, nfaults, clobbered, strayleft, epc, etodo>>
+          /\ UNCHANGED <<parts, info, src, pc, cand, idx, slot, part, res, nfaults, clobbered, strayleft, epc, etodo, einfos>>
 ERmInfo == /\ epc = "entries" /\ ecur[2] = "info"
            /\ info' = [info EXCEPT ![TD][ecur[1]] = NoneV]
            /\ ecur' = <<"-", "-">>
-           /\ UNCHANGED <<parts, pay, src, pc, cand, idx, slot, part, res, nfaults, clobbered, strayleft, epc, etodo>>
+           /\ UNCHANGED <<parts, pay, src, pc, cand, idx, slot, part, res, nfaults, clobbered, strayleft, epc, etodo, einfos>>
 \* orphan sweep: snapshot files/, then for each: if its info does not exist, remove it
 EOList == /\ epc = "olist"
           /\ etodo' = {s \in AllSlots : pay[TD][s] # NoneV}
-          /\ epc' = "orphans" /\ UNCHANGED <<vars, ecur>>
+          /\ epc' = "orphans" /\ UNCHANGED <<vars, ecur, einfos>>
 EOSweep == /\ epc = "orphans"
-           /\ IF etodo = {} THEN epc' = "done" /\ UNCHANGED <<vars, etodo, ecur>>
+           /\ IF etodo = {} THEN epc' = "done" /\ UNCHANGED <<vars, etodo, ecur, einfos>>
               ELSE \E s \in etodo :
-                     /\ etodo' = etodo \ {s} /\ epc' = epc /\ ecur' = ecur
-                     /\ IF info[TD][s] = NoneV
+                     /\ etodo' = etodo \ {s} /\ epc' = epc /\ ecur' = ecur /\ einfos' = einfos
+                     /\ IF (EMutant = "none" /\ info[TD][s] = NoneV) \/ (EMutant = "snapshot" /\ s \notin einfos)
                         THEN pay' = [pay EXCEPT ![TD][s] = NoneV]          \* "orphan": removed
                         ELSE pay' = pay
                      /\ UNCHANGED <<parts, info, src, pc, cand, idx, slot, part, res, nfaults, clobbered, strayleft>>
 
-PutStep == (\E p \in Procs : Step(p)) /\ UNCHANGED <<epc, etodo, ecur>>
+PutStep == (\E p \in Procs : Step(p)) /\ UNCHANGED <<epc, etodo, ecur, einfos>>
 ENext == PutStep \/ EList \/ EPick \/ ERmPay \/ ERmInfo \/ EOList \/ EOSweep
 ESpec == EInit /\ [][ENext]_pevars
 
@@ -62,6 +73,14 @@ ESpec == EInit /\ [][ENext]_pevars
 \* info; an entry that is gone from its place is either in the trash with its info or was purged as a whole pair
 PutDoneWhole == \A p \in Procs : (pc[p] = "done" /\ res[p] = "ok") =>
                    \A s \in AllSlots : (IsOwned(pay[TD][s]) /\ pay[TD][s].owner = p) => IsOwned(info[TD][s]) /\ info[TD][s].owner = p
+\* trash-empty DAYS running next to trash-put: what is being trashed is not old, so it is kept, whole - every put succeeds
+\* and ends with its complete pair (C10: "entries that are kept are left byte-for-byte intact"), at every instant the
+\* payload of a put that is under way or done has its info
+FreshKept == \A p \in Procs : pc[p] = "done" =>
+                /\ res[p] = "ok"
+                /\ \E s \in AllSlots : /\ IsOwned(pay[TD][s]) /\ pay[TD][s].owner = p /\ pay[TD][s].st = "whole"
+                                       /\ IsOwned(info[TD][s]) /\ info[TD][s].owner = p /\ info[TD][s].st = "full"
+FreshInfoFirst == \A s \in AllSlots : IsOwned(pay[TD][s]) => IsOwned(info[TD][s]) /\ info[TD][s].owner = pay[TD][s].owner
 NoSilentLoss == \A p \in Procs : src[p] = "gone" =>
                    \/ \E s \in AllSlots : IsOwned(pay[TD][s]) /\ pay[TD][s].owner = p
                    \/ epc # "list"          \* purged by the emptier (after the put finished or - the race - while it was under way)
